@@ -234,7 +234,7 @@ func (reg *ResourceRegistry) DownloadUpdates(ctx context.Context, includeManual 
 			}
 		}
 		if err != nil {
-			reportError := fmt.Errorf("failed to download %s version %s: %w", rv.resource.Identifier, rv.VersionNumber, err)
+			reportError = fmt.Errorf("failed to download %s version %s: %w", rv.resource.Identifier, rv.VersionNumber, err)
 			log.Warningf("%s: %s", reg.Name, reportError)
 		}
 
@@ -261,7 +261,7 @@ func (reg *ResourceRegistry) DownloadUpdates(ctx context.Context, includeManual 
 				}
 			}
 			if err != nil {
-				reportError := fmt.Errorf("failed to download missing sig of %s version %s: %w", rv.resource.Identifier, rv.VersionNumber, err)
+				reportError = fmt.Errorf("failed to download missing sig of %s version %s: %w", rv.resource.Identifier, rv.VersionNumber, err)
 				log.Warningf("%s: %s", reg.Name, reportError)
 			}
 		}
